@@ -203,6 +203,57 @@ class CFG:
         return (fwd & bwd)
 
 
+def controlling_tests(cfg, node):
+    """The branch tests that decide whether `node` runs on a NORMAL run of
+    the function (transitive control dependence on the graph of the paths
+    that reach the normal exit).  Paths that end in a raise do not count (a
+    validation `if bad: raise` controls nothing), exception edges are
+    ignored, loop headers are not reported (zero iterations), but tests that
+    `continue` / `break` / `return` around the node are.  Returns
+    [(test node, label of the arm that leads to `node`)]."""
+    cache = getattr(cfg, '_pdom_cache', None)
+    if cache is None:
+        g = cfg.graph(prune=lambda a, b, lab: lab == 'exc')
+        g.remove_node(cfg.raise_exit)
+        alive = nx.ancestors(g, cfg.exit) | {cfg.exit}
+        g = g.subgraph(alive).copy()
+        ipdom = nx.immediate_dominators(g.reverse(copy=True), cfg.exit)
+        cache = cfg._pdom_cache = (g, ipdom)
+    g, ipdom = cache
+    if node not in g:
+        return []
+
+    def pdom(a, b):
+        """a post-dominates b"""
+        while True:
+            if a is b:
+                return True
+            p = ipdom.get(b)
+            if p is None or p is b:
+                return False
+            b = p
+    out, seen, work = [], set(), [node]
+    while work:
+        s_ = work.pop()
+        for b in g.nodes:
+            if b.kind not in ('test', 'for') or (b, s_) in seen:
+                continue
+            if pdom(s_, b) and s_ is not b:
+                continue
+            for m, lab in cfg.succ[b]:
+                if lab == 'exc' or m not in g:
+                    continue
+                if pdom(s_, m):
+                    seen.add((b, s_))
+                    if b.kind == 'test' and not any(b is x for x, _ in out):
+                        out.append((b, lab))
+                    if b not in work:
+                        work.append(b)
+                    break
+    out.sort(key=lambda t: t[0].lineno)
+    return out
+
+
 def solve_forward(cfg, init, transfer, prune=None, max_iter=10000):
     """Forward may-analysis over sets of abstract states.
 
